@@ -49,6 +49,7 @@ type Req struct {
 	Fault    string // injected fault kind, if any
 	Applied  bool   // the store executed the request
 	Err      error  // what the caller saw
+	StoreErr error  // what the API server answered (differs from Err under lost-response / crash)
 	Before   store.Obj
 	After    store.Obj // stored object after the write (nil if deleted/not applied)
 	Deleted  bool      // the object disappeared from the store through this request
@@ -60,6 +61,10 @@ type Req struct {
 func (r *Req) Key() store.Key {
 	return store.Key{Group: r.GVK.Group, Kind: r.GVK.Kind, Namespace: r.NS, Name: r.Name}
 }
+
+// Succeeded reports whether the API server executed the request successfully
+// (regardless of whether the caller got to see the response).
+func (r *Req) Succeeded() bool { return r.Applied && r.StoreErr == nil }
 
 func (r *Req) IsWrite() bool {
 	switch r.Verb {
